@@ -70,7 +70,11 @@ def tracer_obs(tr, group):
 
 def path_obs(p, group):
     if group == 'tof':
-        return [float(p.tof), float(p.path_length)]
+        out = [float(p.tof), float(p.path_length)]
+        out += [float(x) for x in np.atleast_1d(p.attenuation(np.array([1e8, 5e8])))]       # integrates along the legs: must follow the attributes
+        for r in p.fresnel:
+            out += [float(np.real(r)), float(np.imag(r))]
+        return out
     return [float(x) for x in p.emitted_direction] + [float(x) for x in p.received_direction] + [float(p.rho), float(p.phi)]
 
 
